@@ -106,6 +106,9 @@ func genOutboxCase(g *prng.R, modes, protos []string) c03Case {
 			typ = "Create"
 		}
 		body = M{"type": typ, "actor": alice()}
+		if typ == "Create" && g.Chance(1, 4) {
+			body["actor"] = A{alice(), pick(g, bob(), L+"/users/Alice", alice()+"#main")}
+		}
 		cs.Hidden = append(cs.Hidden, genAddressing(body, pool, g, g.Intn(2))...)
 		var objs A
 		for i := 0; i < nObj; i++ {
@@ -114,6 +117,27 @@ func genOutboxCase(g *prng.R, modes, protos []string) c03Case {
 				o["id"] = fmt.Sprintf("%s/notes/o%d", L, i)
 			}
 			h := genAddressing(o, pool, g, g.Intn(2))
+			if typ == "Create" && g.Chance(1, 2) {
+				// attribution: a random subset of the local actors, remote
+				// ones, and ids that differ from the activity's actor only
+				// in the case of a path letter, a query or a fragment
+				// (distinct ids, to be cross-copied like any other)
+				apool := []string{alice(), bob(), pool[0], pool[1], L + "/users/Alice", alice() + "?v=2", alice() + "#main"}
+				var attr A
+				for k, n := 0, g.Range(1, 3); k < n; k++ {
+					a := apool[g.Intn(len(apool))]
+					if g.Chance(1, 4) {
+						attr = append(attr, M{"type": "Person", "id": a})
+					} else {
+						attr = append(attr, a)
+					}
+				}
+				if len(attr) == 1 && g.Bool() {
+					o["attributedTo"] = attr[0]
+				} else {
+					o["attributedTo"] = attr
+				}
+			}
 			if typ == "Create" && sc.Cfg.Social && mode == "post" || typ == "Create" && sc.Cfg.Social && mode == "send" {
 				cs.Hidden = append(cs.Hidden, h...)
 			}
